@@ -114,6 +114,7 @@ Print Assumptions background_learners_no_retry.
 (* the hypothesis is decidable on concrete histories; a generated history satisfies it *)
 Theorem bg_scripts_okb_sound : forall evs, forallb (fun eh => ev_bg_okb (fst eh)) evs = true -> bg_scripts_ok evs.
 Proof. exact bg_scripts_okb_sound. Qed.
+Print Assumptions bg_scripts_okb_sound.
 Example generated_history_bg_ok : bg_scripts_ok gen_evs.
 Proof. exact gen_bg_scripts_ok. Qed.
 Example generated_history_background_bounded : c07_background (observe (fst (run (init gen_cfg gen_t0) gen_evs))) = ""%string.
